@@ -114,6 +114,9 @@ func c08Object(c *mon.Ctx, x psatoken.IClaims, k keys.Pair, sig string, det map[
 		bad("ValidateAndEncodeClaimsToCBOR/let-invalid-through", fmt.Sprintf("returned err=%v and %d bytes for a claims-set whose Validate() fails", verr2, len(vb)))
 	case valid && ((verr2 == nil) != (nerr == nil) || !bytes.Equal(vb, nb)):
 		bad("ValidateAndEncodeClaimsToCBOR/differs-from-sibling", fmt.Sprintf("valid set: validating encoder (err=%v, %x) differs from EncodeClaimsToCBOR (err=%v, %x)", verr2, vb, nerr, nb))
+	case valid && verr2 == nil:
+		// "behaves exactly like its non-validating counterpart": the bytes handed out stay the caller's
+		held08cbor.add(c, vb, "ValidateAndEncodeClaimsToCBOR", sig, nil, nil)
 	}
 	// --- ValidateAndEncodeClaimsToJSON
 	vj, verr3 := psatoken.ValidateAndEncodeClaimsToJSON(x)
@@ -124,6 +127,8 @@ func c08Object(c *mon.Ctx, x psatoken.IClaims, k keys.Pair, sig string, det map[
 		bad("ValidateAndEncodeClaimsToJSON/let-invalid-through", fmt.Sprintf("returned err=%v and %d bytes for a claims-set whose Validate() fails", verr3, len(vj)))
 	case valid && ((verr3 == nil) != (nerr3 == nil) || !bytes.Equal(vj, nj)):
 		bad("ValidateAndEncodeClaimsToJSON/differs-from-sibling", fmt.Sprintf("valid set: validating encoder (err=%v) differs from EncodeClaimsToJSON (err=%v): %s vs %s", verr3, nerr3, vj, nj))
+	case valid && verr3 == nil:
+		held08json.add(c, vj, "ValidateAndEncodeClaimsToJSON", sig, nil, nil)
 	}
 	// --- ValidateAndSign vs Sign
 	if k.Signer != nil {
@@ -159,6 +164,17 @@ func c08Object(c *mon.Ctx, x psatoken.IClaims, k keys.Pair, sig string, det map[
 			}
 			if ve.Verify(k.Pub) != nil || e1.Verify(k.Pub) != nil {
 				bad("ValidateAndSign/not-verifiable", "valid set: the token of ValidateAndSign does not verify")
+				break
+			}
+			// the Evidence signed by the validating gate keeps verifying while the library is used for other objects
+			held08ev = append(held08ev, c08HeldEv{e1, k.Pub, sig})
+			if len(held08ev) > 6 {
+				h := held08ev[0]
+				held08ev = held08ev[1:]
+				c.Count("held-evidence-rechecked")
+				if h.ev.Verify(h.pk) != nil {
+					c.Violation("C08/ValidateAndSign/evidence-no-longer-verifies-later", "an Evidence signed with ValidateAndSign verified at once but no longer does after further validating encodes / signs of OTHER objects (Sign's does)", map[string]any{"sig": h.sig})
+				}
 			}
 		}
 	}
@@ -272,6 +288,17 @@ func c08DecodeCOSE(c *mon.Ctx, tok []byte, pk any, sig string) (outcome string) 
 	}
 	return "decoded-valid"
 }
+
+type c08HeldEv struct {
+	ev  *psatoken.Evidence
+	pk  any
+	sig string
+}
+
+var held08ev []c08HeldEv
+
+var held08cbor = &returnedBytes{prop: "C08"}
+var held08json = &returnedBytes{prop: "C08"}
 
 // c08Invalidate, when set, makes c08Object run the attach-then-invalidate case.
 var c08Invalidate func(psatoken.IClaims) string
